@@ -28,9 +28,11 @@ type Gen struct {
 	disjoint   bool                       // merge inputs must have pairwise disjoint lineages (vector ids are unique per base segment)
 	// per run: the optimisation type of each vector field and the similarity of vecB (a field keeps
 	// them across the segments of one index, so they are fixed for the whole script)
-	vecOpt     map[string]string
-	recent     []string // in-memory segments of the last builds (revisitEarlier)
-	vecBMetric string
+	vecOpt             map[string]string
+	recent             []string // in-memory segments of the last builds (revisitEarlier)
+	abandonBeforeMerge bool     // genMergeCase: every merge is first abandoned at a few points
+	prevOpened         string   // genC02: the opened segment of the previous case
+	vecBMetric         string
 	// scripts for the frozen corpus query reopened segments only
 	reopenedOnly bool
 }
@@ -818,6 +820,32 @@ func (g *Gen) genC02(n int) error {
 		}
 		// after early-terminated visits everything must still read the same
 		g.emit("q stored %s 0 stop=*", s)
+		// the ids a caller keeps stay what they were, whatever is asked afterwards
+		if len(b.Docs) > 0 {
+			g.emit("q docids %s n=%d visit=%d", s, len(b.Docs)+1, len(b.Docs)-1)
+		}
+		if i%3 == 0 && len(b.Docs) > 0 {
+			// the same from a file, visited in turns with the file of an earlier case: the same
+			// document number in two opened segments, one after the other
+			f := g.fresh("f")
+			g.emit("persist %s %s", s, f)
+			o := g.fresh("o")
+			g.emit("open %s %s", o, f)
+			g.alias(o, s)
+			g.emit("q docids %s n=%d visit=0", o, len(b.Docs)+1)
+			if p := g.prevOpened; p != "" {
+				for d := 0; d < len(b.Docs) && d < g.ndocs[p] && d < 4; d++ {
+					g.emit("q stored %s %d stop=*", p, d)
+					g.emit("q stored %s %d stop=*", o, d)
+					g.emit("q docid %s %d", p, d)
+					g.emit("q docid %s %d", o, d)
+					g.emit("q stored %s %d stop=*", p, d)
+				}
+				g.emit("close %s", p)
+			}
+			g.prevOpened = o
+			g.st("opened.alternating")
+		}
 		g.st("case")
 	}
 	return nil
@@ -835,6 +863,12 @@ func (g *Gen) genC03(n int) error {
 			// more than 1024 documents: several doc-value chunks of the real size
 			g.emit("cfg dvchunk=1024")
 			g.bigFrozenCase(1026)
+			g.st("case")
+			continue
+		}
+		if i == 7 {
+			g.emit("cfg dvchunk=1024")
+			g.trailingEmptyDvChunkCase()
 			g.st("case")
 			continue
 		}
@@ -985,6 +1019,18 @@ func (g *Gen) genC04(n int) error {
 			g.emit("ref addref %s", o)
 			g.emit("ref decref %s", o)
 			g.st("sharer")
+		}
+		// the opened segment can be streamed too (through the method it inherits; its footer carries
+		// no checksum of its own, so the bytes are not compared), and stays what it was
+		w3 := g.fresh("w")
+		g.emit("writeto %s %s", o, w3)
+		if i%8 == 3 {
+			// WriteTo under faults (every offset would be Gen C17's business; here every 37th, and
+			// transient ones), then once more without: the bytes are those of the file
+			g.emit("writetofaults %s step=37", s)
+			w4 := g.fresh("w")
+			g.emit("writeto %s %s", s, w4)
+			g.emit("cmpfile %s %s", f, w4)
 		}
 		g.dumpAll(s)
 		g.dumpAll(o)
@@ -1155,6 +1201,17 @@ func (g *Gen) genMergeCase(cfgMod func(*batchCfg), dump func(seg string), depth 
 		if allDropped {
 			g.st("merge.zero-survivors")
 		}
+		if g.abandonBeforeMerge {
+			// the same merge abandoned at a few points first (the close channel closes inside the k-th
+			// progress report): whatever those attempts left in pools or scratch objects, the merge that
+			// runs to the end is unaffected
+			g.emit("cfg mergebuf=64")
+			for _, k := range []int{2, 11, 29, 61, 120} {
+				g.emit("merge %s segs=%s drops=%s close=report:%d", g.fresh("fx"), strList(ins), strings.Join(drops, "|"), k+g.r.Intn(4))
+			}
+			g.emit("cfg mergebuf=%d", 1024*1024)
+			g.st("merge.abandonedfirst")
+		}
 		g.emit("merge %s segs=%s drops=%s", f, strList(ins), strings.Join(drops, "|"))
 		g.emit("footer %s", f) // whatever path the merge took, the file ends in a footer that matches its bytes
 		m := g.fresh("m")
@@ -1175,8 +1232,8 @@ func (g *Gen) bigMergeCase() {
 	mode := []int{1026, 1026, 1025, 1024, 3}[g.r.Intn(5)]
 	// the first two big merges of a run are the cardinality-dependent modes with deletions crossing 1024
 	nth := g.stats["bigmerge"]
-	if nth < 4 {
-		mode = []int{1026, 1026, 1025, 1026}[nth]
+	if nth < 5 {
+		mode = []int{1026, 1026, 1025, 1026, 1026}[nth]
 	}
 	g.curMode = mode
 	g.emit("cfg chunkmode=%d", mode)
@@ -1187,6 +1244,29 @@ func (g *Gen) bigMergeCase() {
 	}
 	if nth == 3 {
 		sizes = []int{600, 430} // exactly 1024 survivors, see below
+	}
+	if nth == 4 {
+		// 5th big merge of a run: in front of ONE big input (its frequent terms in 1030 documents, 10 of
+		// them deleted: the live count crosses 1024) stand two small inputs, one without the field, one
+		// with the field but without those terms - each with deletions of its own
+		sizes = []int{1030}
+		for _, withBody := range []bool{false, true} {
+			b := &BatchSpec{Name: g.fresh("b")}
+			for d := 0; d < 12; d++ {
+				id := []byte(fmt.Sprintf("%s-%d", b.Name, d))
+				doc := DocSpec{ID: id, Plain: true}
+				doc.Fields = append(doc.Fields, FieldSpec{Kind: "fld", Name: "_id", Typ: 't', Stored: true, Len: 1, Val: id, Toks: []TokSpec{{Term: id, Freq: 1}}})
+				if withBody {
+					doc.Fields = append(doc.Fields, FieldSpec{Kind: "fld", Name: "body", Typ: 't', Len: 1, Toks: []TokSpec{{Term: []byte("other"), Freq: 1}}})
+				}
+				b.Docs = append(b.Docs, doc)
+			}
+			g.emitBatch(b)
+			s := g.fresh("s")
+			g.emit("build %s %s", s, b.Name)
+			g.newBuilt(s, b)
+			segs = append(segs, s)
+		}
 	}
 	for k, nd := range sizes {
 		b := &BatchSpec{Name: g.fresh("b")}
@@ -1225,7 +1305,7 @@ func (g *Gen) bigMergeCase() {
 	total := 0
 	// 1st and 3rd big merge of a run: deletions take the survivors below 1024; 2nd: few deletions, so that a
 	// term of every document stays above 1024 while its neighbour in the next field has a handful of hits
-	crossing := ((g.chance(0.7) && nth != 1) || nth == 0 || nth == 2) && nth != 3
+	crossing := ((g.chance(0.7) && nth != 1) || nth == 0 || nth == 2) && nth != 3 && nth != 4
 	fewDrops := nth == 1
 	for _, s := range segs {
 		nd := g.ndocs[s]
@@ -1247,6 +1327,15 @@ func (g *Gen) bigMergeCase() {
 			// 4th big merge of a run: EXACTLY 1024 survivors, every one of them with the term "common"
 			// (1024 is the first cardinality that takes two chunks in the cardinality-dependent mode)
 			xs = []int{5, 100, 333}
+		}
+		if nth == 4 {
+			if nd > 100 {
+				xs = []int{0, 1, 2, 3, 4, 5, 6, 7, 8, 9}
+			} else if len(drops) == 0 {
+				xs = nil // the input without the field: nothing deleted
+			} else {
+				xs = []int{0, 2, 4, 6, 8, 10, 11}
+			}
 		}
 		d := "nil"
 		if len(xs) > 0 {
@@ -2148,4 +2237,56 @@ func (g *Gen) distinctMergesAtOnce() {
 	}
 	g.emit("endpar")
 	g.st("merges.distinctatonce")
+}
+
+// trailingEmptyDvChunkCase: an input whose doc-value field has values in its first 1024 documents
+// only (a chunk with values directly followed by an empty one), merged behind a small input (so that
+// its documents are not aligned with the chunks of the result) and, the other way round, in front of
+// it; every survivor's values are visited in the result.
+func (g *Gen) trailingEmptyDvChunkCase() {
+	g.curMode = 1026
+	g.emit("cfg chunkmode=1026")
+	mk := func(nd, withVal int) string {
+		b := &BatchSpec{Name: g.fresh("b")}
+		for d := 0; d < nd; d++ {
+			id := []byte(fmt.Sprintf("%s-%d", b.Name, d))
+			doc := DocSpec{ID: id, Plain: true}
+			doc.Fields = append(doc.Fields, FieldSpec{Kind: "fld", Name: "_id", Typ: 't', Stored: true, Len: 1, Val: id, Toks: []TokSpec{{Term: id, Freq: 1}}})
+			if d < withVal {
+				doc.Fields = append(doc.Fields, FieldSpec{Kind: "fld", Name: "cat", Typ: 't', Len: 1, DV: true, Toks: []TokSpec{{Term: []byte(fmt.Sprintf("c%d", d%6)), Freq: 1}}})
+			}
+			b.Docs = append(b.Docs, doc)
+		}
+		g.emitBatch(b)
+		s := g.fresh("s")
+		g.emit("build %s %s", s, b.Name)
+		g.newBuilt(s, b)
+		return s
+	}
+	a := mk(100, 100)
+	bg := mk(2000, 1024)
+	for _, d := range []int{0, 1023, 1024, 1999} {
+		g.emit("q dv %s - fields=cat doc=%d", bg, d)
+	}
+	for _, c := range []struct {
+		segs  []string
+		drops string
+		n     int
+	}{{[]string{a, bg}, "nil|nil", 2100}, {[]string{bg, a}, "5|nil", 2099}, {[]string{bg}, "0,1,2", 1997}} {
+		f := g.fresh("f")
+		g.emit("merge %s segs=%s drops=%s", f, strList(c.segs), c.drops)
+		m := g.fresh("m")
+		g.emit("open %s %s", m, f)
+		g.emit("q dvfields %s", m)
+		st := g.fresh("st")
+		for _, d := range []int{0, 50, 99, 100, 101, 600, 1020, 1021, 1022, 1023, 1024, 1025, 1100, 1122, 1123, 1124, 1125, 1500, 2047, 2048, c.n - 1} {
+			if d < c.n {
+				g.emit("q dv %s %s fields=cat doc=%d", m, st, d)
+			}
+		}
+		g.emit("close %s", m)
+	}
+	g.emit("close %s", a)
+	g.emit("close %s", bg)
+	g.st("dv.trailingempty")
 }
